@@ -1,6 +1,6 @@
 (* Props/C10.v — time travel and history. *)
 From Coq Require Import List NArith Arith Bool.
-From SKV Require Import Base.Lex Txn.WriteSet Spec.Store Spec.Versioned Spec.Machine.
+From SKV Require Import Base.Lex Txn.WriteSet Spec.Store Spec.Versioned Spec.Machine Lsm.CompactKey Lsm.CompactKeySpec Lsm.CompactKey_proofs.
 Import ListNotations.
 
 (* a hard delete erases every earlier version for good; a replace erases them and stays *)
@@ -8,3 +8,26 @@ Theorem C10_hard_delete_erases : forall vs v, v_kind v = KDel -> retained (vs ++
 Proof. intros vs v H. unfold retained. rewrite fold_left_app. cbn [fold_left]. unfold retain_step. rewrite H. reflexivity. Qed.
 Theorem C10_replace_erases : forall vs v, v_kind v = KReplace -> retained (vs ++ [v]) = [v].
 Proof. intros vs v H. unfold retained. rewrite fold_left_app. cbn [fold_left]. unfold retain_step. rewrite H. reflexivity. Qed.
+
+(* With versioning enabled and unlimited retention a compaction changes the history of no reader
+   that can exist (registered snapshots, and horizons at or above the newest version): no retained
+   version is lost, nothing a hard delete or replace erased comes back — for ALL version lists,
+   snapshot sets and levels. *)
+Theorem C10_compact_key_history : compact_key_history_stmt.
+Proof. exact compact_key_history. Qed.
+
+(* finite retention: nothing erased comes back, and whatever is lost lies outside the window *)
+Theorem C10_compact_key_history_retention : compact_key_history_retention_stmt.
+Proof. exact compact_key_history_retention. Qed.
+
+(* the reads themselves (get / range) are preserved as well *)
+Theorem C10_compact_key_view : compact_key_view_stmt.
+Proof. exact compact_key_view. Qed.
+
+(* non-vacuity: [Set@3; Del@2; Set@1] with a reader at horizon 1: the reader keeps Set@1, and the
+   hard delete stays so that Set@1 never reappears in the history of later readers *)
+Example C10_barrier_kept_example :
+  compact_key false true 0 0 [1%N]
+    [ {| vseq := 3; vkind := CSet; vts := 3 |}; {| vseq := 2; vkind := CDel; vts := 2 |}; {| vseq := 1; vkind := CSet; vts := 1 |} ]%N
+  = [ {| vseq := 3; vkind := CSet; vts := 3 |}; {| vseq := 2; vkind := CDel; vts := 2 |}; {| vseq := 1; vkind := CSet; vts := 1 |} ]%N.
+Proof. vm_compute. reflexivity. Qed.
